@@ -7,7 +7,7 @@ state forward. reason-map: each failure source is mapped to the right Control co
 cancel-after-stop: the `stopping` condition is notified only in the Shutdown region, which is entered
 only after the control future returned Ready. drain: every dispatcher shutdown, every
 Control::Stop arm of the control services and close/force_close/drop_sink reach clear_queues /
-drop_payload; clear_queues clears waiters and in-flight entries. Liveness is not decided. error-wakes (continued): poll_service examines the recorded error before the readiness poll and before every exit; every Result that handle_result finds to be Err (completed item, queued item, write outcome) is stored into state.error; drain (continued): after every await of the window waiter that is followed by a send, the cancelled edge is tested and reaches no registration / wire write. drain (continued): after `payload.take()` no suspension point of a dispatcher coroutine is reachable before `payload.set(..)`: the sender every teardown path notifies is back in its cell whenever the task can be parked.
+drop_payload; clear_queues clears waiters and in-flight entries. Liveness is not decided. error-wakes (continued): poll_service examines the recorded error before the readiness poll and before every exit; every Result that handle_result finds to be Err (completed item, queued item, write outcome) is stored into state.error; drain (continued): after every await of the window waiter that is followed by a send, the cancelled edge is tested and reaches no registration / wire write. drain (continued): after `payload.take()` no suspension point of a dispatcher coroutine is reachable before `payload.set(..)`: the sender every teardown path notifies is back in its cell whenever the task can be parked. stop-once (continued): a state store that follows poll_service() in the same poll round lies on its Ready edge (Continue means the dispatcher was just stopped). drain (continued): the waiter of a spawned handler task on `stopping` is created before the spawn.
 """
 from facts import *
 from disp import *
